@@ -378,3 +378,202 @@ Lemma decode_unfixed_oob :
 Proof.
   exists (fun _ => 4294967295), (fun _ => 0), (PREFIX ++ [1; 128]). split; vm_compute; reflexivity.
 Qed.
+
+(* ------------------------------------------------------------------ consumed input is a prefix *)
+
+Lemma dec_sym_suffix fx st tag inp st' rest :
+  dec_sym fx st tag inp = ECont st' rest -> exists c, inp = c ++ rest.
+Proof.
+  unfold dec_sym.
+  destruct (tag / (REF_TAG_LONG + 1) =? 0). { intros H; inversion H; subst. exists []. reflexivity. }
+  destruct (opt_uint fx _ _ inp) as [[sym_len inp1]|] eqn:E1; [|discriminate].
+  destruct (_ || _); [discriminate|].
+  destruct (take_nat _ inp1) as [[bs inp2]|] eqn:E2; [|discriminate].
+  destruct (BUF_LEN <? d_pos st + sym_len); [discriminate|].
+  destruct (BUF_LEN <? d_ind st + sym_len); [discriminate|].
+  intros H; inversion H; subst.
+  apply opt_uint_spec in E1. destruct E1 as [c1 ->].
+  apply take_nat_spec in E2. destruct E2 as [-> _].
+  exists (c1 ++ bs). rewrite app_assoc. reflexivity.
+Qed.
+
+Lemma dec_ref_suffix fx i2p0 buf0 st tag inp st' rest :
+  dec_ref fx i2p0 buf0 st tag inp = ECont st' rest -> exists c, inp = c ++ rest.
+Proof.
+  unfold dec_ref.
+  destruct (tag mod (REF_TAG_LONG + 1) =? 0). { intros H; inversion H; subst. exists []. reflexivity. }
+  destruct (opt_uint fx _ _ inp) as [[r1 inp1]|] eqn:E1; [|discriminate].
+  destruct (uint_read fx inp1) as [[ref_ind inp2]|] eqn:E2; [|discriminate].
+  repeat match goal with |- context [if ?c then _ else _] => destruct c; try discriminate end.
+  intros H; inversion H; subst.
+  apply opt_uint_spec in E1. destruct E1 as [c1 ->].
+  apply uint_read_spec in E2. destruct E2 as [c2 [-> _]].
+  exists (c1 ++ c2). rewrite app_assoc. reflexivity.
+Qed.
+
+Lemma dec_elem_suffix fx i2p0 buf0 st tag inp st' rest :
+  dec_elem fx i2p0 buf0 st tag inp = ECont st' rest -> exists c, inp = c ++ rest.
+Proof.
+  unfold dec_elem. destruct (dec_sym fx st tag inp) as [st1 inp1| |] eqn:E; try discriminate.
+  intros H. apply dec_sym_suffix in E. apply dec_ref_suffix in H.
+  destruct E as [c1 ->]. destruct H as [c2 ->]. exists (c1 ++ c2). rewrite app_assoc. reflexivity.
+Qed.
+
+(* enough fuel is as good as more fuel *)
+Lemma dec_loop_fuel fx i2p0 buf0 : forall f1 f2 st h inp acc,
+  (length inp < f1)%nat -> (length inp < f2)%nat ->
+  dec_loop fx i2p0 buf0 f1 st h inp acc = dec_loop fx i2p0 buf0 f2 st h inp acc.
+Proof.
+  induction f1 as [|f1 IH]; intros f2 st h inp acc H1 H2; [lia|].
+  destruct f2 as [|f2]; [lia|]. cbn [dec_loop].
+  destruct inp as [|tag inp0]; [reflexivity|].
+  destruct (tag =? 0); [reflexivity|].
+  destruct (dec_elem fx i2p0 buf0 st tag inp0) as [st2 inp2| |] eqn:E; try reflexivity.
+  apply dec_elem_suffix in E. destruct E as [c ->].
+  cbn [length] in H1, H2. rewrite app_length in H1, H2.
+  destruct (BUF_LEN <=? d_pos st2); apply IH; lia.
+Qed.
+
+(* ------------------------------------------------------------------ truncation / extension *)
+
+Lemma dec_loop_trunc fx i2p0 buf0 : forall f st h p q acc d,
+  q <> [] -> dec_loop fx i2p0 buf0 f st h (p ++ q) acc = Accept d ->
+  forall f', (length p < f')%nat -> dec_loop fx i2p0 buf0 f' st h p acc = Reject.
+Proof.
+  induction f as [|f IH]; intros st h p q acc d Hq H f' Hf'; [discriminate|].
+  destruct f' as [|f']; [lia|]. cbn [dec_loop] in *.
+  destruct p as [|tag p0]; [reflexivity|]. cbn [app] in H.
+  destruct (tag =? 0).
+  - destruct (take_nat 8 (p0 ++ q)) as [[hs rest]|] eqn:E; [|discriminate].
+    destruct rest; [|discriminate].
+    destruct (take_nat_prefix _ _ _ _ _ E) as [E1|[rest' [E1 E2]]]; rewrite E1; [reflexivity|].
+    symmetry in E2. apply app_eq_nil in E2. destruct E2 as [_ E2]. contradiction.
+  - destruct (dec_elem fx i2p0 buf0 st tag (p0 ++ q)) as [st2 inp2| |] eqn:E; try discriminate.
+    destruct (dec_elem_prefix _ _ _ _ _ _ _ _ _ E) as [E1|[rest' [E1 ->]]]; rewrite E1; [reflexivity|].
+    apply dec_elem_suffix in E1. destruct E1 as [c ->].
+    cbn [length] in Hf'. rewrite app_length in Hf'.
+    destruct (BUF_LEN <=? d_pos st2); eapply IH; eauto; lia.
+Qed.
+
+Lemma dec_loop_ext fx i2p0 buf0 : forall f st h p q acc d,
+  q <> [] -> dec_loop fx i2p0 buf0 f st h p acc = Accept d ->
+  forall f', (length (p ++ q) < f')%nat -> dec_loop fx i2p0 buf0 f' st h (p ++ q) acc = Reject.
+Proof.
+  induction f as [|f IH]; intros st h p q acc d Hq H f' Hf'; [discriminate|].
+  destruct f' as [|f']; [lia|]. cbn [dec_loop] in *.
+  destruct p as [|tag p0]; [discriminate|]. cbn [app].
+  destruct (tag =? 0).
+  - destruct (take_nat 8 p0) as [[hs rest]|] eqn:E; [|discriminate].
+    destruct rest; [|discriminate].
+    rewrite (take_nat_app _ _ _ _ q E). cbn [app]. destruct q; [contradiction | reflexivity].
+  - destruct (dec_elem fx i2p0 buf0 st tag p0) as [st2 inp2| |] eqn:E; try discriminate.
+    rewrite (dec_elem_app _ _ _ _ _ _ _ _ q E).
+    apply dec_elem_suffix in E. destruct E as [c ->].
+    cbn [app length] in Hf'. rewrite !app_length in Hf'.
+    destruct (BUF_LEN <=? d_pos st2); eapply IH; eauto; rewrite app_length; lia.
+Qed.
+
+Lemma list_eqb_eq a : forall b, list_eqb a b = true -> a = b.
+Proof.
+  induction a as [|x a IH]; intros [|y b] H; cbn [list_eqb] in H; try discriminate; [reflexivity|].
+  apply andb_prop in H. destruct H as [H1 H2]. apply N.eqb_eq in H1. subst. f_equal. apply IH. exact H2.
+Qed.
+
+Lemma list_eqb_refl a : list_eqb a a = true.
+Proof. induction a as [|x a IH]; cbn [list_eqb]; [reflexivity|]. rewrite N.eqb_refl, IH. reflexivity. Qed.
+
+Lemma decode_accept_inv fx i2p0 buf0 s d :
+  decode fx i2p0 buf0 s = Accept d ->
+  firstn (length PREFIX) s = PREFIX /\
+  dec_loop fx i2p0 buf0 (S (length (skipn (length PREFIX) s))) dinit CHECK_HASH_SEED
+           (skipn (length PREFIX) s) [] = Accept d.
+Proof.
+  unfold decode. destruct (dec_loop _ _ _ _ _ _ _ _) eqn:E; try discriminate.
+  destruct (list_eqb _ _) eqn:E2; [|discriminate]. intros H; inversion H; subst.
+  split; [apply list_eqb_eq; exact E2 | reflexivity].
+Qed.
+
+(* every proper prefix of an accepted stream is rejected *)
+Lemma decode_truncated fx i2p0 buf0 p q d :
+  q <> [] -> decode fx i2p0 buf0 (p ++ q) = Accept d -> decode fx i2p0 buf0 p = Reject.
+Proof.
+  intros Hq H. apply decode_accept_inv in H. destruct H as [Hp H].
+  unfold decode. set (k := length PREFIX) in *.
+  destruct (Nat.le_gt_cases k (length p)) as [Hk|Hk].
+  - rewrite skipn_app in H. replace (k - length p)%nat with O in H by lia. cbn [skipn] in H.
+    rewrite (dec_loop_trunc _ _ _ _ _ _ _ _ _ _ Hq H); [reflexivity | lia].
+  - rewrite skipn_all2 by lia. reflexivity.
+Qed.
+
+(* every proper extension of an accepted stream is rejected *)
+Lemma decode_extended fx i2p0 buf0 s q d :
+  q <> [] -> decode fx i2p0 buf0 s = Accept d -> decode fx i2p0 buf0 (s ++ q) = Reject.
+Proof.
+  intros Hq H. apply decode_accept_inv in H. destruct H as [Hp H].
+  unfold decode. set (k := length PREFIX) in *.
+  assert (Hk : (k <= length s)%nat).
+  { apply (f_equal (@length N)) in Hp. rewrite firstn_length in Hp. fold k in Hp. lia. }
+  rewrite skipn_app. replace (k - length s)%nat with O by lia. cbn [skipn].
+  rewrite (dec_loop_ext _ _ _ _ _ _ _ _ _ _ Hq H); [reflexivity | lia].
+Qed.
+
+(* ------------------------------------------------------------------ what acceptance guarantees *)
+
+(* check_hash over the data, as both sides compute it: buffer-fulls of BUF_LEN bytes chained through
+   the seed, then the (shorter, non-empty) rest if any *)
+Inductive chain : list N -> N -> N -> Prop :=
+| chain_nil h : chain [] h h
+| chain_last c h : c <> [] -> (length c < buf_fuel)%nat -> chain c h (mir_hash_strict c h)
+| chain_full c rest h h' :
+    length c = buf_fuel -> chain rest (mir_hash_strict c h) h' -> chain (c ++ rest) h h'.
+
+Lemma dec_loop_accept fx i2p0 buf0 : forall f st h inp acc d,
+  d_pos st < BUF_LEN ->
+  dec_loop fx i2p0 buf0 f st h inp acc = Accept d ->
+  exists body hs d', inp = body ++ 0 :: hs /\ length hs = 8%nat /\ d = acc ++ d' /\ chain d' h (le_value hs).
+Proof.
+  induction f as [|f IH]; intros st h inp acc d Hpos H; [discriminate|].
+  cbn [dec_loop] in H. destruct inp as [|tag inp0]; [discriminate|].
+  destruct (N.eqb_spec tag 0) as [->|Htag].
+  - destruct (take_nat 8 inp0) as [[hs rest]|] eqn:E; [|discriminate].
+    destruct rest; [|discriminate].
+    apply take_nat_spec in E. destruct E as [-> Hl]. rewrite app_nil_r.
+    destruct (N.eqb_spec (le_value hs)
+                (if d_pos st =? 0 then h
+                 else mir_hash_strict (aread buf0 (d_buf st) 0 (N.to_nat (d_pos st))) h)) as [E|]; [|discriminate].
+    inversion H; subst. exists [], hs, (aread buf0 (d_buf st) 0 (N.to_nat (d_pos st))).
+    repeat split; try assumption. rewrite E.
+    destruct (N.eqb_spec (d_pos st) 0) as [E0|E0].
+    + rewrite E0. cbn. constructor.
+    + apply chain_last.
+      * intro C. apply (f_equal (@length N)) in C. rewrite aread_length in C. cbn in C. lia.
+      * rewrite aread_length. unfold buf_fuel. lia.
+  - destruct (dec_elem fx i2p0 buf0 st tag inp0) as [st2 inp2| |] eqn:E; try discriminate.
+    apply dec_elem_suffix in E. destruct E as [c ->].
+    destruct (N.leb_spec BUF_LEN (d_pos st2)) as [Hfull|Hnot].
+    + apply IH in H; [|cbn; unfold BUF_LEN; lia].
+      destruct H as [body [hs [d' [-> [Hl [-> Hc]]]]]].
+      exists (tag :: c ++ body), hs, (aread buf0 (d_buf st2) 0 buf_fuel ++ d').
+      repeat split; try assumption.
+      * cbn [app]. rewrite <- app_assoc. reflexivity.
+      * rewrite app_assoc. reflexivity.
+      * apply chain_full; [apply aread_length | exact Hc].
+    + apply IH in H; [|exact Hnot].
+      destruct H as [body [hs [d' [-> [Hl [-> Hc]]]]]].
+      exists (tag :: c ++ body), hs, d'. repeat split; try assumption.
+      cbn [app]. rewrite <- app_assoc. reflexivity.
+Qed.
+
+(* an accepted stream is PREFIX, a body, a 0 tag and eight bytes that spell the check hash of
+   exactly the data that was delivered *)
+Lemma decode_accept_integrity fx i2p0 buf0 s d :
+  decode fx i2p0 buf0 s = Accept d ->
+  exists body hs, s = PREFIX ++ body ++ 0 :: hs /\ length hs = 8%nat
+                  /\ chain d CHECK_HASH_SEED (le_value hs).
+Proof.
+  intros H. apply decode_accept_inv in H. destruct H as [Hp H].
+  apply dec_loop_accept in H; [|cbn; unfold BUF_LEN; lia].
+  destruct H as [body [hs [d' [Hs [Hl [-> Hc]]]]]].
+  exists body, hs. repeat split; try assumption.
+  rewrite <- (firstn_skipn (length PREFIX) s), Hp, Hs. reflexivity.
+Qed.
